@@ -3,6 +3,8 @@ import D2P.Model.Output
 import D2P.Model.Iterators
 import D2P.Model.Lifecycle
 import D2P.Check.C01
+import D2P.Model.Replace
+import D2P.Model.Save
 /-!
 # JSON line protocol between the Python harness and the model
 -/
@@ -189,6 +191,65 @@ def handleRender (j : Json) : Except String Json := do
   let extra := if roman then [("lower_roman", jM jStr (lowerRoman n)), ("upper_roman", jM jStr (upperRoman n))] else []
   pure (Json.mkObj (base ++ extra))
 
+partial def jXml : Xml → Json
+  | .elem _ p t _ a tx tl ks => Json.mkObj [("p", jOptStr p), ("u", jOptStr t.ns), ("l", jStr t.name),
+      ("a", .arr (a.map fun (q, v) => Json.arr #[jOptStr q.ns, jStr q.name, jStr v]).toArray),
+      ("x", jOptStr tx), ("t", jOptStr tl), ("k", .arr (ks.map jXml).toArray)]
+  | .comment c tl => Json.mkObj [("c", jStr c), ("t", jOptStr tl)]
+  | .pi tl => Json.mkObj [("pi", toJson (1 : Nat)), ("t", jOptStr tl)]
+
+/-- `{"op":"merged", …package…}`: `File.root_element` of every content part (path ↦ merged tree) -/
+def handleMerged (j : Json) : Except String Json := do
+  let a ← archiveOfJson j
+  let o : Opts := { html := (j.getObjValAs? Bool "html").toOption.getD false, dup := true }
+  match a.files with
+  | .error e => pure (Json.mkObj [("err", .str (errName e))])
+  | .ok files =>
+    let cs := filesOfType files contentTypes
+    pure (Json.mkObj (cs.map fun r => (String.ofList r.path, jM (fun cr => jXml cr.2) (rootElement o a files r))))
+
+/-- `{"op":"replace","tree":…,"nsmaps":…,"old":"…","new":"…"}`: `replace_root_text(root, old, new)` -/
+def handleReplace (j : Json) : Except String Json := do
+  let nsmaps ← nsmapsOfJson (← j.getObjVal? "nsmaps")
+  let root ← xmlOfJson nsmaps (← j.getObjVal? "tree")
+  let old ← j.getObjValAs? String "old"
+  let new ← j.getObjValAs? String "new"
+  pure (jM jXml (replaceIn old.toList new.toList root))
+
+def unitOfJson (j : Json) : UnitKey :=
+  match j with
+  | .arr #[.str "files"] => .files
+  | .arr #[.str "num"] => .num
+  | .arr #[.str "root", .str p] => .root p.toList
+  | .arr #[.str "raw", .str p] => .raw p.toList
+  | _ => .raw []
+
+/-- `{"op":"lifecycle","needs":[[units…],…],"ops":[["read",k]|["close"]|["exit",b]…]}`: the reader's
+cache / handle state machine run over an operation history; attribute `k` needs the units `needs[k]` -/
+def handleLifecycle (j : Json) : Except String Json := do
+  let needsArr ← match ← j.getObjVal? "needs" with
+    | .arr a => pure (a.toList.map fun us => match us with | .arr u => u.toList.map unitOfJson | _ => [])
+    | _ => throw "needs"
+  let needs : Needs := fun _ a => { units := needsArr.getD a [], collectors := [] }
+  let ops ← match ← j.getObjVal? "ops" with
+    | .arr a => a.toList.mapM fun o => match o with
+        | .arr #[.str "read", k] => do pure (Op.read (← k.getNat?))
+        | .arr #[.str "close"] => pure Op.close
+        | .arr #[.str "exit", .bool b] => pure (Op.withExit b)
+        | _ => throw "op"
+    | _ => throw "ops"
+  let r := run needs [] {} ops
+  let res := r.2.map fun x => match x with
+    | .value _ => Json.str "value" | .saved => .str "saved" | .valueError => .str "ValueError"
+    | .done b => Json.mkObj [("done", toJson true), ("exception_propagates", toJson b)]
+  pure (Json.mkObj [("results", .arr res.toArray), ("closed", toJson r.1.closed), ("zipOpen", toJson r.1.zipOpen)])
+
+/-- `{"op":"save", …package…}`: member names of the archive `DocxReader.save` writes -/
+def handleSave (j : Json) : Except String Json := do
+  let a ← archiveOfJson j
+  let o : Opts := { html := (j.getObjValAs? Bool "html").toOption.getD false, dup := true }
+  pure (jM (fun (out : Archive) => .arr (out.members.map fun m => jStr m.1).toArray) (save o a))
+
 def handle (line : String) : Json :=
   match Json.parse line with
   | .error e => Json.mkObj [("bad", .str e)]
@@ -197,6 +258,10 @@ def handle (line : String) : Json :=
     | .ok "package" => (match handlePackage j with | .ok r => r | .error e => Json.mkObj [("bad", .str e)])
     | .ok "c01" => (match handleC01 j with | .ok r => r | .error e => Json.mkObj [("bad", .str e)])
     | .ok "enum" => (match handleEnum j with | .ok r => r | .error e => Json.mkObj [("bad", .str e)])
+    | .ok "merged" => (match handleMerged j with | .ok r => r | .error e => Json.mkObj [("bad", .str e)])
+    | .ok "replace" => (match handleReplace j with | .ok r => r | .error e => Json.mkObj [("bad", .str e)])
+    | .ok "lifecycle" => (match handleLifecycle j with | .ok r => r | .error e => Json.mkObj [("bad", .str e)])
+    | .ok "save" => (match handleSave j with | .ok r => r | .error e => Json.mkObj [("bad", .str e)])
     | .ok "render" => (match handleRender j with | .ok r => r | .error e => Json.mkObj [("bad", .str e)])
     | _ => Json.mkObj [("bad", .str "unknown op")]
 
